@@ -58,9 +58,6 @@ func ByteStreamConsumer(opts ...byteStreamOpt) Consumer {
 		if reader == nil {
 			return errors.New("ByteStreamConsumer requires a reader") // early exit
 		}
-		if data == nil {
-			return errors.New("nil destination for ByteStreamConsumer")
-		}
 
 		closer := defaultCloser
 		if vals.Close {
@@ -71,6 +68,10 @@ func ByteStreamConsumer(opts ...byteStreamOpt) Consumer {
 		defer func() {
 			_ = closer()
 		}()
+
+		if data == nil {
+			return errors.New("nil destination for ByteStreamConsumer")
+		}
 
 		if readerFrom, isReaderFrom := data.(io.ReaderFrom); isReaderFrom {
 			_, err := readerFrom.ReadFrom(reader)
@@ -158,10 +159,11 @@ func ByteStreamProducer(opts ...byteStreamOpt) Producer {
 
 	return ProducerFunc(func(writer io.Writer, data interface{}) error {
 		if writer == nil {
+			if rc, isDataCloser := data.(io.ReadCloser); isDataCloser {
+				_ = rc.Close() // a closable payload is always closed
+			}
+
 			return errors.New("ByteStreamProducer requires a writer") // early exit
-		}
-		if data == nil {
-			return errors.New("nil data for ByteStreamProducer")
 		}
 
 		closer := defaultCloser
@@ -173,6 +175,10 @@ func ByteStreamProducer(opts ...byteStreamOpt) Producer {
 		defer func() {
 			_ = closer()
 		}()
+
+		if data == nil {
+			return errors.New("nil data for ByteStreamProducer")
+		}
 
 		if rc, isDataCloser := data.(io.ReadCloser); isDataCloser {
 			defer rc.Close()
